@@ -180,7 +180,7 @@ def accept_traces(items, name="sys", timeout=900, shard=12):
     return out
 
 
-MONITOR_NAMES = ["c01_ok", "c02_ok", "c05_ok", "c06_ok", "c10_ok", "c14_ok", "c16_ok"]
+MONITOR_NAMES = ["c01_ok", "c02_ok", "c05_ok", "c06_ok", "c10_ok", "c14_ok", "c16_ok", "c06p_ok"]
 
 
 # ---------------------------------------------------------------------------------------------
